@@ -119,7 +119,13 @@ Presolve == /\ pc = "presolve"
             /\ UNCHANGED <<scn, aux, prevT, first, rows, pauses>>
 
 \* Solve + Store + PostSolve are environment no-ops in the time family; Accept saves the row and advances
-Accept == /\ pc = "solve"
+\* environment: the nonlinear solve of this step fails (C16).  run_sim stops at once: nothing is saved for the step,
+\* RuntimeError when convergence_error, otherwise a warning and error_code (pc = "failed"); rows stay as they are.
+SolveFails == /\ pc = "solve" /\ scn.failAt = Len(rows) + 1
+              /\ pc' = IF scn.convErr THEN "raised" ELSE "failed"
+              /\ UNCHANGED <<scn, aux, now, prevT, first, ri, st, rows, pauses>>
+
+Accept == /\ pc = "solve" /\ scn.failAt # Len(rows) + 1
           /\ rows' = Append(rows, [t |-> now, st |-> st])
           /\ prevT' = now /\ first' = FALSE
           /\ LET n == now + scn.H IN now' = n - (n % scn.H)
@@ -137,8 +143,9 @@ NewRun == /\ pc = "paused"
           /\ pc' = "presolve"
           /\ UNCHANGED <<scn, aux, now, prevT, st, rows>>
 
-Next == Presolve \/ Accept \/ NewRun
+Next == Presolve \/ Accept \/ NewRun \/ SolveFails
 Spec == Init /\ [][Next]_vars
+FairSpec == Spec /\ WF_vars(Next)
 
 \* ------------------------------------------------------------------ properties (C04)
 Times == {rows[i].t : i \in DOMAIN rows}
@@ -149,11 +156,18 @@ Refines ==                                                                      
     /\ Required(scn, tl) \subseteq Times
     /\ Times \subseteq Allowed(scn, tl)
     /\ \A i \in DOMAIN rows : rows[i].st = StatusAt(scn, tl, rows[i].t)
+\* C16: every run terminates; a failed solve stops the run, and what was reported before is the fault-free prefix
+Terminates == <>(pc \in {"done", "failed", "raised"})
+FailStop == pc \in {"failed", "raised"} =>
+              LET tl == aux.tl IN
+              /\ Len(rows) = scn.failAt - 1
+              /\ \A i \in DOMAIN rows : rows[i].st = StatusAt(scn, tl, rows[i].t) /\ rows[i].t < now
+              /\ {t \in Required(scn, tl) : t < now} \subseteq Times
 NeverBackwards == [][now' > prevT']_vars
 \* C11.def_unchanged at the level of the algorithm: no action of the simulator writes the model definition
 DefinitionUnchanged == [][scn' = scn]_vars
 \* expected observable timeline for the replay harness
-Emit == pc = "done" /\ IOEnv.EMIT = "1" =>
+Emit == pc \in {"done", "failed", "raised"} /\ IOEnv.EMIT = "1" =>
           LET tl == aux.tl IN
           PrintT(<<"CASE", ToJson([id |-> scn.id, req |-> SortInts(Required(scn, tl)),
                                    alw |-> SortInts(Allowed(scn, tl)),
